@@ -266,6 +266,46 @@ class ProgGen:
     def expr(self, depth):
         """-> (ast, Val) with at least one active leaf; raises Reject when unlucky"""
         r = self.rng
+        plan = getattr(self, "plan", None)
+        if plan:
+            # directed programs (directed_programs): the shape of the expression is prescribed, pre-order
+            d = plan.pop(0)
+            if d[0] == "leaf":
+                return self.leaf()
+            if d[0] == "u":
+                f = d[1]
+                a, va = self.expr(depth - 1)
+                a, va = self.adapt(f, a, va)
+                self.note("unary", f)
+                return ("u", f, a), ev_unary(f, va)
+            if d[0] == "b":
+                op = d[1]
+                a, va = self.expr(depth - 1)
+                b, vb = self.expr(depth - 1)
+                a, va, b, vb = self.adapt2(op, a, va, b, vb)
+                self.note("binary", op); self.note("kinds", "active∘active")
+                return ("b", op, a, b), ev_binary(op, va, vb)
+            if d[0] == "l":
+                op = d[1]
+                c, cv = self.scalar()
+                b, vb = self.expr(depth - 1)
+                va = self.const_val(cv)
+                _, _, b, vb = self.adapt2(op, None, va, b, vb)
+                self.note("binary", op); self.note("kinds", "passive(%s)∘active" % ("int" if c[0] == "i" else "double"))
+                return ("l", op, c, b), ev_binary(op, va, vb, a_active=False)
+            if d[0] == "r":
+                op = d[1]
+                c, cv = self.scalar()
+                a, va = self.expr(depth - 1)
+                vb = self.const_val(cv)
+                a, va, _, _ = self.adapt2(op, a, va, None, vb)
+                self.note("binary", op)
+                if op == "Divide":
+                    self.note("kinds", "active/passive(%s)" % ("int" if c[0] == "i" else "double"))
+                    return ("q", c, a), ev_binary("Divide", va, vb, b_active=False)
+                self.note("kinds", "active∘passive(%s)" % ("int" if c[0] == "i" else "double"))
+                return ("r", op, c, a), ev_binary(op, va, vb, b_active=False)
+            raise AssertionError(d)
         if depth <= 0 or r.random() < 0.18:
             return self.leaf()
         x = r.random()
@@ -512,6 +552,44 @@ class ProgGen:
             self.uninit.discard(h)
             self.vals[h] = v; self.emit(("asg", h, e)); self.last_lhs = h
 
+    def directed_statement(self, template):
+        """one assignment whose right-hand side has the prescribed shape (pre-order list of directives); False if no
+        admissible operands were found at the input points"""
+        live = sorted(self.vals)
+        for _ in range(40):
+            snap = (dict(self.used["unary"]), dict(self.used["binary"]), dict(self.used["kinds"]), self.ties)
+            trk = list(TRK)
+            self.plan = list(template)
+            try:
+                e, v = self.expr(9)
+                if self.plan:
+                    raise AssertionError("template not consumed")
+                self.plan = None
+                h = self.rng.choice(live)
+                self.vals[h] = v; self.emit(("asg", h, e)); self.last_lhs = h
+                return True
+            except (Reject, ValueError, OverflowError, ZeroDivisionError):
+                self.used["unary"], self.used["binary"], self.used["kinds"], self.ties = snap
+                TRK[:] = trk
+                self.plan = None
+        return False
+
+    def directed_program(self, templates):
+        TRK[:] = [0.0] * NPTS
+        self.gen_inputs(4)
+        done = 0
+        for t in templates:
+            # re-seed the variables now and then so that values stay in a moderate range
+            if done and done % 4 == 0:
+                for h in sorted(self.vals):
+                    if h not in self.inputs and self.rng.random() < 0.5:
+                        c = round(self.rng.uniform(-2, 2), 2) or 0.5
+                        self.vals[h] = self.const_val(float(c)); self.emit(("setp", h, float(c)))
+            if self.directed_statement(t):
+                done += 1
+        self.maxdis = list(TRK)
+        return self.stmts, done
+
     def mentions(self, e, h):
         """the leaf v<h> occurs exactly once"""
         return self.count(e, h) == 1
@@ -539,6 +617,39 @@ class ProgGen:
         self.uninit.clear()
         self.maxdis = list(TRK)
         return self.stmts
+
+
+def directed_templates(unsupported):
+    """every binary operation x operand form (active∘active, passive∘active, active∘passive) x child shape x placement, and
+    every unary function x child shape x placement, as pre-order directive lists.  Children that are themselves expressions make
+    the node cache values in scratch slots; a placement under a multiplying / function parent makes the node receive an incoming
+    multiplier (the `calc_*` overloads WITH a multiplier); a placement as the right child shifts its scratch base."""
+    L = [("leaf",)]
+    children = [L, [("u", "Sin")] + L, [("b", "Multiply")] + L + L, [("u", "Exp"), ("b", "Multiply")] + L + L]
+    placements = [lambda t: t,
+                  lambda t: [("l", "Multiply")] + t,                 # under a passive multiplier
+                  lambda t: [("u", "Sin")] + t,                       # under a function
+                  lambda t: [("b", "Add")] + L + t,                   # right child of an add (scratch base shifted by nothing)
+                  lambda t: [("b", "Multiply"), ("u", "Cos")] + L + t]   # right child of a multiply whose left child uses scratch
+    out = []
+    for op in BINARY:
+        for form in ("b", "l", "r"):
+            if form == "r" and op not in SCALAR_RHS + ["Divide"]:
+                continue
+            for ci, c in enumerate(children):
+                for pl in placements:
+                    if form == "b":
+                        t = [("b", op)] + c + children[(ci + 1) % len(children)]
+                    else:
+                        t = [(form, op)] + c
+                    out.append(pl(t))
+    for f in UNARY:
+        if f in unsupported:
+            continue
+        for c in (L, [("b", "Multiply")] + L + L):
+            for pl in placements[:3]:
+                out.append(pl([("u", f)] + c))
+    return out
 
 
 # ----------------------------------------------------------------------------- emitters
